@@ -2477,6 +2477,17 @@ class Trimesh(Geometry3D):
                 matrix,
             )[0]
 
+        if has_rotation:
+            # cached normals can only be carried through transforms that
+            # preserve angles: rotation, mirroring and uniform scale. For
+            # anything else (non-uniform scale, shear) transforming them by
+            # the matrix is wrong so discard them to be recomputed on demand
+            gram = np.dot(matrix[:3, :3], matrix[:3, :3].T)
+            scale_sq = np.trace(gram) / 3.0
+            if not np.abs(gram - _IDENTITY3 * scale_sq).max() < 1e-8 * scale_sq:
+                self._cache.cache.pop("face_normals", None)
+                self._cache.cache.pop("vertex_normals", None)
+
         # preserve face normals if we have them stored
         if has_rotation and "face_normals" in self._cache:
             # transform face normals by rotation component
